@@ -107,6 +107,14 @@ def main():
             if extra.endswith(".py") and extra != "demo.py":
                 shutil.copy(os.path.join(src, extra), dst)
         meta_out = dict(meta)
+        if skip_tests and os.path.exists(os.path.join(dst, "meta.json")):
+            # keep the suite result recorded when the seed was first filed
+            try:
+                prev = json.load(open(os.path.join(dst, "meta.json")))
+                result["tests"] = prev.get("confirmed", {}).get(
+                    "pinned_test_suite_with_patch", result["tests"])
+            except (OSError, ValueError):
+                pass
         meta_out.update({
             "breaks_property": prop,
             "confirmed": {
